@@ -153,7 +153,7 @@ def range_errors(node):
 #   ("plural", rule, count_name, {form: [r]})
 
 class Resolver:
-    def __init__(self, project, plural_table=None, null_target="default"):
+    def __init__(self, project, plural_table=None, null_target="chain"):
         """null_target: how a reference to a key that is `null` in the referencing locale is resolved:
         "chain" = along the inherits chain (what C03/C06 state), "default" = in the default locale."""
         self.p = project
